@@ -759,6 +759,99 @@ def run_op_method(case):
   return R(None, True, (case[1], case[3]))
 
 
+# ------------------------------- periodic operands that were partly consumed before the operator
+PERIODS = [(3, -1, 4), (10, 20), (7,), (1, 2, 3, 4)]
+BIN = OrderedDict([("+", operator.add), ("-", operator.sub), ("*", operator.mul), ("<", operator.lt),
+                   ("r-", lambda a, b: b - a), ("//", operator.floordiv)])
+
+
+def gen_periodic(run):
+  for ia in range(len(PERIODS)):
+    for ib in range(len(PERIODS)):
+      for ka in (0, 1, 2, 5):
+        for kb in (0, 1, 3):
+          for op in BIN:
+            yield (ia, ka, ib, kb, op)
+
+
+def run_periodic(case):
+  """Stream(a, b, c) is endless and periodic; after k items were taken from it, it goes on from item k -
+  also as the operand of an operator, whatever the other operand's period and position."""
+  ia, ka, ib, kb, op = case
+  pa, pb = PERIODS[ia], PERIODS[ib]
+  a, b = Stream(*pa), Stream(*pb)
+  if ka: a.take(ka)
+  for _ in range(kb):
+    next(iter(b))
+  f = BIN[op]
+  try:
+    got = f(a, b).take(13)
+  except Exception as exc:
+    return bad("periodic:exception:" + type(exc).__name__, "operator on partly consumed periodic Streams raised", None, str(exc)[:200], True)
+  exp = []
+  for n in range(13):
+    try:
+      exp.append(f(pa[(ka + n) % len(pa)], pb[(kb + n) % len(pb)]))
+    except ZeroDivisionError:
+      break
+  if got[:len(exp)] != exp or (len(exp) == 13 and len(got) != 13):
+    return bad("periodic:value", "an operator on periodic Streams that were partly consumed must go on from where each one is",
+               {"taken": [ka, kb], "items": exp}, got, True)
+  return R(None, ka + kb > 0, (op, ka > 0, kb > 0))
+
+
+# --------------------------------- scalars that can be indexed (but are not iterable)
+class Word(int):
+  """An int that also answers word[i] (a bit); it has no __iter__ and is a scalar for every purpose."""
+  def __getitem__(self, i):
+    if i > 8:
+      raise IndexError(i)
+    return (int(self) >> i) & 1
+
+
+def gen_indexable(run):
+  for op in OpMethod.get("all"):
+    if op.arity == 2 and op.symbol not in ("@",):
+      for kind in ("word", "poly", "table"):
+        yield (op.dname, kind)
+
+
+def run_indexable(case):
+  """A non-iterable operand is repeated for every position - also when it happens to define __getitem__
+  (an int subclass, AudioLazy's own Poly and TableLookup objects)."""
+  from audiolazy import Poly, TableLookup
+  dname, kind = case
+  op = next(OpMethod.get(dname))
+  f = SYMBOL[op.symbol]
+  left = [5, 2, 9, 4]
+  other = {"word": lambda: Word(6), "poly": lambda: Poly([3, 1, 2]), "table": lambda: TableLookup([1., 2., 4., 8.])}[kind]()
+  def ref(v):
+    return f(other, v) if op.rev else f(v, other)
+  exp = []
+  for v in left:
+    t = try_elem(ref, v)
+    if t[0] == "e":
+      exp.append(("e", t[1])); break
+    exp.append(("v", t[1]))
+  try:
+    res = getattr(Stream(list(left)), dname)(other)
+    got, exc = consume(res, len(left) + 3)
+  except Exception as e_:
+    got, exc = [], type(e_).__name__
+  want_items = [v for tag, v in exp if tag == "v"]
+  want_exc = next((v for tag, v in exp if tag == "e"), None)
+  def same(a, b):
+    try:
+      return type(a) is type(b) and (a == b) is True
+    except Exception:
+      return type(a) is type(b)
+  if len(got) != len(want_items) or any(not same(g, w) for g, w in zip(got, want_items)) or (want_exc or None) != (exc if exc not in (None, "end") else None):
+    return bad("op:indexable-scalar", "a scalar operand that defines __getitem__ (but not __iter__) must be repeated for "
+               "every position, like any other non-iterable", {"op": dname, "operand": kind, "items": [repr(w)[:40] for w in want_items], "then": want_exc},
+               {"items": [repr(g)[:40] for g in got], "then": exc}, True)
+  return R(None, True, (op.symbol, kind))
+
+
 KINDS = OrderedDict([
   ("table", Kind(gen_table, run_table, rule="operator table: 35 methods, all installed on Stream")),
   ("ops", Kind(gen_ops, run_op, chunk=500, rule="operator x route x other kind x lengths x element type")),
@@ -769,4 +862,6 @@ KINDS = OrderedDict([
   ("secondary", Kind(gen_secondary, run_secondary, chunk=8, rule="secondary parameters and the elementwise decorator itself")),
   ("ops-long", Kind(gen_ops_long, run_op_long, chunk=20, rule="every operator x other kind on operands of 300 / 257 vs 64 / 65 vs 1000 elements")),
   ("op-method", Kind(gen_op_method, run_op_method, chunk=200, rule="operator, Stream method, operator, method, operator: all combinations of the menus")),
+  ("periodic-consumed", Kind(gen_periodic, run_periodic, chunk=200, rule="pairs of periodic Streams x items already taken from each x operator")),
+  ("indexable-scalars", Kind(gen_indexable, run_indexable, chunk=20, rule="binary operators x a scalar operand with __getitem__ (int subclass, Poly, TableLookup)")),
 ])
